@@ -13,8 +13,9 @@ def compare_state(ref_u, ref_v, ref_w, after, directed):
     return None
 
 
-def judge_sweep(ctx, line, st0, A, after, what):
-    if not analytic.invariant_holds(st0, A):
+def judge_sweep(ctx, line, st0, A, after, what, reached=False):
+    # reached = a state of a real trajectory: judged whatever it looks like (see C09.judge)
+    if not reached and not analytic.invariant_holds(st0, A):
         return 'unreachable'
     pyspec.Margin.reset()
     ref = pyspec.em_sweep(st0, A)
@@ -90,7 +91,7 @@ def run(ctx):
                     if b != a + 1:
                         continue
                     n_eval += 1
-                    v = judge_sweep(ctx, traj[c - 600000], sts[a], A, sts[b], 'realization %d sweep %d' % (r, b))
+                    v = judge_sweep(ctx, traj[c - 600000], sts[a], A, sts[b], 'realization %d sweep %d' % (r, b), reached=True)
                     verdicts[v] += 1
                     keys.add((m['directed'], m['assort'], m['from_init'], 'trajectory'))
     ctx.oracle.update({'evaluations': n_eval, 'distinct_nontrivial': len(keys), 'verdicts': verdicts, 'states_exercising': branch,
